@@ -46,20 +46,21 @@ type vref struct {
 }
 
 type sgen struct {
-	r        *mon.Rand
-	n        int
-	maxDepth int
-	routes   map[string]int
-	maxCap   int // deepest capture distance generated (function levels)
-	loopCap  bool
-	writes   int
-	spawn    bool
-	budget   int
-	pureMid  int  // functions that use no ancestor binding themselves (their descendants do)
-	failNext bool // the next function generated raises an error at the end of its body (after its closures escaped)
-	failing  int
-	omitted  int // calls that leave a defaulted parameter out
-	wrappers int // `name := func ... name ...` in a nested block
+	r           *mon.Rand
+	n           int
+	maxDepth    int
+	routes      map[string]int
+	maxCap      int // deepest capture distance generated (function levels)
+	loopCap     bool
+	writes      int
+	spawn       bool
+	budget      int
+	pureMid     int  // functions that use no ancestor binding themselves (their descendants do)
+	failNext    bool // the next function generated raises an error at the end of its body (after its closures escaped)
+	failing     int
+	omitted     int // calls that leave a defaulted parameter out
+	wrappers    int // `name := func ... name ...` in a nested block
+	lateShadows int // captured name read, then re-declared by the function and used from a nested block
 }
 
 func id(n string) *gen.Ident { return &gen.Ident{Name: n} }
@@ -154,6 +155,24 @@ func (g *sgen) fn(level int, env []vref) *gen.FuncLit {
 	nops := 1 + g.r.Intn(3)
 	for i := 0; i < nops; i++ {
 		body = append(body, mutate(own))
+	}
+	if len(ownEnv) > 0 && g.r.Chance(1, 5) {
+		// a captured binding is read first, then the function declares a binding of its own with the same
+		// name and uses that one from a nested block: from the declaration on, the name is the local
+		e := mon.Pick(g.r, ownEnv)
+		g.noteCap(level, e.level)
+		g.lateShadows++
+		t := g.fresh("t")
+		body = append(body, decl(t, &gen.Binary{Op: "+", L: id(e.name), R: num(1)}))
+		body = append(body, decl(e.name, &gen.Binary{Op: "+", L: id(t), R: num(100 + g.r.Intn(50))}))
+		then := []gen.Stmt{&gen.Assign{Target: id(e.name), Op: "+=", X: id(d)}, logStmt(g.n, id(e.name), id(t))}
+		if g.r.Bool() {
+			then = append(then, &gen.For{Kind: "three", Init: &gen.VarDecl{Kind: ":=", Name: g.fresh("q"), X: num(0)},
+				Cond: &gen.Binary{Op: "<", L: id(fmt.Sprintf("q%d", g.n)), R: num(2)}, Post: &gen.IncDec{Name: fmt.Sprintf("q%d", g.n), Op: "++"},
+				Body: []gen.Stmt{&gen.IncDec{Name: e.name, Op: "++"}}})
+		}
+		body = append(body, es(&gen.IfExpr{Cond: &gen.Binary{Op: ">=", L: id(d), R: num(-1000)}, Then: then}))
+		mine = append(mine, vref{t, level})
 	}
 	if g.r.Chance(1, 4) {
 		// wrapper idiom in a nested block: `e := func(x) { ... e ... }` declares a new e for the rest of the
@@ -559,6 +578,7 @@ type out struct {
 	HostCalls   int            `json:"host_calls"`
 	Omitted     int            `json:"omitted"`  // calls of a closure that leave its defaulted parameter out
 	Wrappers    int            `json:"wrappers"` // `name := func ... name ...` declarations in a nested block
+	LateShadows int            `json:"late_shadows"`
 	Sigs        []string       `json:"sigs"`
 	Fail        []failure      `json:"fail"`
 	Samples     []string       `json:"samples"`
@@ -606,6 +626,7 @@ func worker(kind string, data json.RawMessage) any {
 		o.HostCalls += len(rr.Host)
 		o.Omitted += g.omitted
 		o.Wrappers += g.wrappers
+		o.LateShadows += g.lateShadows
 		if mr.Tags["deep-capture"] {
 			o.Deep++
 			if mr.Tags["deep-capture-off-stack"] {
@@ -727,6 +748,7 @@ func drive(d *mon.Driver, replay string) int {
 		d.Event("host-side-calls-and-reads", o.HostCalls)
 		d.Event("closure-calls-with-defaulted-parameter-left-out", o.Omitted)
 		d.Event("wrapper-declarations-shadowing-the-name-they-use", o.Wrappers)
+		d.Event("captured-name-read-then-redeclared-and-used-in-nested-block", o.LateShadows)
 		d.Event("discarded-undecided", o.Discarded)
 		deep += o.Deep
 		deepOn += o.DeepOnStack
